@@ -1,1 +1,207 @@
-//! oracle for serpent — to be written from the specification
+//! Serpent (Anderson, Biham, Knudsen, "Serpent: A Proposal for the Advanced Encryption Standard"), written from
+//! the paper's description: the eight 4-bit S-boxes are the paper's tables; the cipher is expressed on four
+//! 32-bit words X0..X3 (the paper's "bitslice mode": bit j of X0 is the least significant bit of the j-th 4-bit
+//! column, so the initial/final permutations of the standard mode disappear).  Byte convention: words are read
+//! little-endian from the 16 block bytes / 32 key bytes (the convention of the NESSIE vectors bundled with the
+//! repository).  Inverse S-boxes are generated from the forward tables.
+
+pub const PHI: u32 = 0x9e37_79b9;
+
+/// S0..S7 of the AES submission.
+pub const SBOX: [[u8; 16]; 8] = [
+    [3, 8, 15, 1, 10, 6, 5, 11, 14, 13, 4, 2, 7, 0, 9, 12],
+    [15, 12, 2, 7, 9, 0, 5, 10, 1, 11, 14, 8, 6, 13, 3, 4],
+    [8, 6, 7, 9, 3, 12, 10, 15, 13, 1, 14, 4, 0, 11, 5, 2],
+    [0, 15, 11, 8, 12, 9, 6, 3, 13, 1, 2, 4, 10, 7, 5, 14],
+    [1, 15, 8, 3, 12, 0, 11, 6, 2, 5, 4, 10, 9, 14, 7, 13],
+    [15, 5, 2, 11, 4, 10, 9, 12, 0, 3, 14, 8, 13, 6, 7, 1],
+    [7, 2, 12, 5, 8, 4, 6, 11, 14, 9, 1, 15, 13, 3, 10, 0],
+    [1, 13, 15, 0, 14, 8, 2, 11, 7, 4, 12, 10, 9, 3, 5, 6],
+];
+
+pub fn sbox_inv_table(i: usize) -> [u8; 16] {
+    let mut t = [0u8; 16];
+    let mut x = 0;
+    while x < 16 {
+        t[SBOX[i][x] as usize] = x as u8;
+        x += 1;
+    }
+    t
+}
+
+/// Apply a 4-bit table to the 32 columns of (X0, X1, X2, X3); X0 carries the least significant bit.
+fn columns(table: &[u8; 16], x: [u32; 4]) -> [u32; 4] {
+    let mut y = [0u32; 4];
+    let mut j = 0;
+    while j < 32 {
+        let nib = ((x[0] >> j) & 1) | (((x[1] >> j) & 1) << 1) | (((x[2] >> j) & 1) << 2) | (((x[3] >> j) & 1) << 3);
+        let o = table[nib as usize] as u32;
+        y[0] |= (o & 1) << j;
+        y[1] |= ((o >> 1) & 1) << j;
+        y[2] |= ((o >> 2) & 1) << j;
+        y[3] |= ((o >> 3) & 1) << j;
+        j += 1;
+    }
+    y
+}
+
+/// S_idx on all 32 columns, idx in 0..8.
+pub fn apply_s(idx: usize, x: [u32; 4]) -> [u32; 4] {
+    columns(&SBOX[idx], x)
+}
+/// S_idx^{-1} on all 32 columns, idx in 0..8.
+pub fn apply_s_inv(idx: usize, x: [u32; 4]) -> [u32; 4] {
+    columns(&sbox_inv_table(idx), x)
+}
+
+/// The linear transformation on (X0, X1, X2, X3).
+pub fn lt(x: [u32; 4]) -> [u32; 4] {
+    let (mut x0, mut x1, mut x2, mut x3) = (x[0], x[1], x[2], x[3]);
+    x0 = x0.rotate_left(13);
+    x2 = x2.rotate_left(3);
+    x1 = x1 ^ x0 ^ x2;
+    x3 = x3 ^ x2 ^ (x0 << 3);
+    x1 = x1.rotate_left(1);
+    x3 = x3.rotate_left(7);
+    x0 = x0 ^ x1 ^ x3;
+    x2 = x2 ^ x3 ^ (x1 << 7);
+    x0 = x0.rotate_left(5);
+    x2 = x2.rotate_left(22);
+    [x0, x1, x2, x3]
+}
+/// Inverse linear transformation.
+pub fn lt_inv(x: [u32; 4]) -> [u32; 4] {
+    let (mut x0, mut x1, mut x2, mut x3) = (x[0], x[1], x[2], x[3]);
+    x2 = x2.rotate_right(22);
+    x0 = x0.rotate_right(5);
+    x2 = x2 ^ x3 ^ (x1 << 7);
+    x0 = x0 ^ x1 ^ x3;
+    x3 = x3.rotate_right(7);
+    x1 = x1.rotate_right(1);
+    x3 = x3 ^ x2 ^ (x0 << 3);
+    x1 = x1 ^ x0 ^ x2;
+    x2 = x2.rotate_right(3);
+    x0 = x0.rotate_right(13);
+    [x0, x1, x2, x3]
+}
+
+/// User key of `len` bytes (16..=32, the first `len` bytes of `buf`) -> 256-bit key: "append one 1 bit to the
+/// MSB end, followed by as many 0 bits as required" (the key is a little-endian number: byte `len` becomes 0x01).
+pub fn pad_key(buf: &[u8; 32], len: usize) -> [u8; 32] {
+    let mut k = [0u8; 32];
+    let mut i = 0;
+    while i < 32 {
+        if i < len {
+            k[i] = buf[i];
+        } else if i == len {
+            k[i] = 1;
+        }
+        i += 1;
+    }
+    k
+}
+
+fn words16(b: &[u8; 16]) -> [u32; 4] {
+    let mut w = [0u32; 4];
+    let mut i = 0;
+    while i < 4 {
+        w[i] = u32::from_le_bytes([b[4 * i], b[4 * i + 1], b[4 * i + 2], b[4 * i + 3]]);
+        i += 1;
+    }
+    w
+}
+fn bytes16(w: &[u32; 4]) -> [u8; 16] {
+    let mut o = [0u8; 16];
+    let mut i = 0;
+    while i < 4 {
+        let b = w[i].to_le_bytes();
+        o[4 * i] = b[0];
+        o[4 * i + 1] = b[1];
+        o[4 * i + 2] = b[2];
+        o[4 * i + 3] = b[3];
+        i += 1;
+    }
+    o
+}
+
+/// Prekeys w_{-8}..w_{-1} = key words; w_i = (w_{i-8} ^ w_{i-5} ^ w_{i-3} ^ w_{i-1} ^ PHI ^ i) <<< 11, i = 0..131;
+/// round key K_i = S_{(3 - i) mod 8}(w_{4i}, w_{4i+1}, w_{4i+2}, w_{4i+3}), i = 0..32.
+/// `s(idx, x)` is the S-box layer S_idx, idx in 0..8.
+pub fn key_schedule_with<S: Fn(usize, [u32; 4]) -> [u32; 4]>(key256: &[u8; 32], s: S) -> [[u32; 4]; 33] {
+    // window[j] = w_{i-8+j}
+    let mut window = [0u32; 8];
+    let mut j = 0;
+    while j < 8 {
+        window[j] = u32::from_le_bytes([key256[4 * j], key256[4 * j + 1], key256[4 * j + 2], key256[4 * j + 3]]);
+        j += 1;
+    }
+    let mut rk = [[0u32; 4]; 33];
+    let mut i = 0usize;
+    while i < 33 {
+        let mut quad = [0u32; 4];
+        let mut l = 0;
+        while l < 4 {
+            let n = (4 * i + l) as u32;
+            let w = (window[0] ^ window[3] ^ window[5] ^ window[7] ^ PHI ^ n).rotate_left(11);
+            let mut t = 0;
+            while t < 7 {
+                window[t] = window[t + 1];
+                t += 1;
+            }
+            window[7] = w;
+            quad[l] = w;
+            l += 1;
+        }
+        rk[i] = s((32 + 3 - i) % 8, quad);
+        i += 1;
+    }
+    rk
+}
+
+fn xor4(a: [u32; 4], b: [u32; 4]) -> [u32; 4] {
+    [a[0] ^ b[0], a[1] ^ b[1], a[2] ^ b[2], a[3] ^ b[3]]
+}
+
+/// B_{i+1} = L(S_{i mod 8}(B_i ^ K_i)), i = 0..30;  B_32 = S_7(B_31 ^ K_31) ^ K_32.
+pub fn encrypt_with<S: Fn(usize, [u32; 4]) -> [u32; 4]>(rk: &[[u32; 4]; 33], block: &[u8; 16], s: S) -> [u8; 16] {
+    let mut b = words16(block);
+    let mut i = 0;
+    while i < 31 {
+        b = lt(s(i % 8, xor4(b, rk[i])));
+        i += 1;
+    }
+    b = xor4(s(31 % 8, xor4(b, rk[31])), rk[32]);
+    bytes16(&b)
+}
+
+/// Inverse of `encrypt_with`; `si(idx, x)` is S_idx^{-1}.
+pub fn decrypt_with<SI: Fn(usize, [u32; 4]) -> [u32; 4]>(rk: &[[u32; 4]; 33], block: &[u8; 16], si: SI) -> [u8; 16] {
+    let mut b = words16(block);
+    b = xor4(si(31 % 8, xor4(b, rk[32])), rk[31]);
+    let mut i = 31;
+    while i > 0 {
+        i -= 1;
+        b = xor4(si(i % 8, lt_inv(b)), rk[i]);
+    }
+    bytes16(&b)
+}
+
+fn key_buf(key: &[u8]) -> ([u8; 32], usize) {
+    let mut buf = [0u8; 32];
+    let mut i = 0;
+    while i < key.len() && i < 32 {
+        buf[i] = key[i];
+        i += 1;
+    }
+    (buf, key.len())
+}
+
+/// key: 16..=32 bytes.
+pub fn encrypt(key: &[u8], block: &[u8; 16]) -> [u8; 16] {
+    let (buf, len) = key_buf(key);
+    encrypt_with(&key_schedule_with(&pad_key(&buf, len), apply_s), block, apply_s)
+}
+pub fn decrypt(key: &[u8], block: &[u8; 16]) -> [u8; 16] {
+    let (buf, len) = key_buf(key);
+    decrypt_with(&key_schedule_with(&pad_key(&buf, len), apply_s), block, apply_s_inv)
+}
